@@ -321,8 +321,12 @@ fn probe(corpus: &Corpus, d: &'static FnDesc, fi: u8, versions: &BTreeMap<(u8, u
     }
     // fresh keys: the bound holds after each store; FIFO/LRU flush every old entry
     let before: BTreeSet<String> = list_keys(d.cache_name).unwrap_or_default();
-    let n_fresh = d.limit.unwrap_or(2) + 1;
-    for j in 0..n_fresh {
+    let need = d.limit.unwrap_or(2) + 1;
+    let mut stored_fresh = 0usize;
+    for j in 0..(need + 5) {
+        if stored_fresh >= need {
+            break;
+        }
         let k = 20 + j as u8;
         ver += 1;
         let (ret, _) = plain_call(corpus, d, k, ver);
@@ -330,17 +334,23 @@ fn probe(corpus: &Corpus, d: &'static FnDesc, fi: u8, versions: &BTreeMap<(u8, u
             return Some(("value-in-probe".into(), "twin value".into(), format!("{:?}", ret)));
         }
         let l = list_keys(d.cache_name).unwrap_or_default();
+        if l.contains(&key_of(d, None, &key_args(k))) {
+            // (a value larger than max_memory is rejected and does not count)
+            stored_fresh += 1;
+        }
         if let Some(n) = d.limit {
             if l.len() > n {
                 return Some(("bound-in-probe".into(), format!("at most {} entries after a sequential store", n), format!("{:?}", l)));
             }
         }
     }
-    if matches!(d.effective_policy(), Policy::Fifo | Policy::Lru) && d.limit.is_some() && d.max_memory.is_none() {
+    // FIFO / LRU evict oldest-first, under entry and memory pressure alike: once limit + 1 fresh
+    // keys have been stored, at most `limit` entries remain and they are all newer than `before`
+    if matches!(d.effective_policy(), Policy::Fifo | Policy::Lru) && d.limit.is_some() && stored_fresh >= need {
         let l = list_keys(d.cache_name).unwrap_or_default();
         let stuck: Vec<&String> = l.iter().filter(|k| before.contains(*k)).collect();
         if !stuck.is_empty() {
-            return Some(("unevictable".into(), format!("{} fresh stores flush every older entry under {:?}", n_fresh, d.effective_policy()), format!("still cached: {:?}", stuck)));
+            return Some(("unevictable".into(), format!("{} fresh stores flush every older entry under {:?}", stored_fresh, d.effective_policy()), format!("still cached: {:?}", stuck)));
         }
     }
     // expiry
